@@ -21,7 +21,7 @@ ASSUMPTIONS = ['header equality under heuristic detection is required only when 
 def cases(tier, seed):
     rng = random.Random('C11/%s' % seed)
     out = []
-    n = 20 if tier == 'quick' else 300
+    n = 60 if tier == 'quick' else 400
     for i in range(n):
         nI, nX = rng.choice([(5, 6), (8, 9), (12, 40), (9, 13), (4, 32), (6, 5), (10, 26)])
         nZ = rng.choice([5, 12, 33])
